@@ -12,8 +12,6 @@ let show_membership (m0 : membership) : string =
   Printf.sprintf "ccid=%s a=%s n=%s w=%s r=%s" (string_of_n m.m_ccid)
     (show_map m.m_addresses) (show_map m.m_nonvotings) (show_map m.m_witnesses) (show_set m.m_removed)
 
-let bits (l : bool list) : string = String.concat "" (List.map (fun b -> if b then "1" else "0") l)
-
 let parse_map (s : string) : amap =
   if s = "-" then [] else
     List.fold_left (fun acc kv ->
@@ -50,9 +48,6 @@ let () =
           List.iteri (fun n op ->
             match split_ws op with
             | [] -> ()
-            | ["eq"; a; b] ->
-              Printf.printf "%s %d EQ %d\n" id n
-                (if address_equal_ascii (bytes_of_hex a) (bytes_of_hex b) then 1 else 0)
             | ["snap"] ->
               m := m_set (m_get !m);
               Printf.printf "%s %d S %s\n" id n (show_membership !m)
@@ -63,13 +58,12 @@ let () =
             | ["cc"; ty; rep; addr; ccid; init; index] ->
               let c = { cc_ccid = n_of_string ccid; cc_type = z_of_string ty; cc_replica = n_of_string rep;
                         cc_addr = bytes_of_hex addr; cc_init = (init = "1") } in
-              let rules = rule_vector_ascii ordered !m c in
               (match handle_ascii ordered !m c (n_of_string index) with
                | Panicked t -> Printf.printf "%s %d P%s\n" id n (string_of_n t); raise Stop
                | Applied m' -> m := m';
-                 Printf.printf "%s %d A rules=%s %s\n" id n (bits rules) (show_membership !m)
+                 Printf.printf "%s %d A %s\n" id n (show_membership !m)
                | Rejected _ ->
-                 Printf.printf "%s %d R rules=%s %s\n" id n (bits rules) (show_membership !m))
+                 Printf.printf "%s %d R %s\n" id n (show_membership !m))
             | _ -> Printf.printf "%s %d BADOP\n" id n) ops
         with Stop -> ())
       end)
